@@ -70,7 +70,14 @@ class Record:
         }
 
 
+DECIMAL_THRESHOLDS = [0.3, 0.6, 1.2, 2.4, 0.7, 2.3, 4.6, 1.1, 3.0, 6.0]
+
+
 def pick_thresholds(rng):
+    if rng.random() < 0.15:
+        # thresholds typed in decimals (0.3 mm/h ...): threshold x step is then not exact in binary, and data recorded
+        # to 0.1 mm can sit one ulp above or below it (see build_record)
+        return rng.choice(DECIMAL_THRESHOLDS), rng.choice(DECIMAL_THRESHOLDS)
     if rng.random() < 0.8:
         return rng.choice(THRESHOLDS), rng.choice(THRESHOLDS)
     return rng.randint(1, 64) / 8.0, rng.randint(1, 64) / 8.0
@@ -243,6 +250,32 @@ def huge_record(rng, s, j, dt=None):
     return Record(dt, t0, rain, level, removed, 0, 1)
 
 
+def boundary_record(rng):
+    """(record, s, j): a logger recording to 0.1 mm, thresholds typed in decimals, and rises made ONLY of increments equal
+    to the decimal number `threshold x step` -- one ulp above or below the floating-point product the tool compares with
+    (0.3 mm/h x 3 h: the product is 0.8999999999999999, the recorded increment 0.9)."""
+    for _ in range(200):
+        dt = rng.choice([360, 600, 1080, 1200, 1800, 3600, 7200, 10800, 21600, 86400])
+        j = rng.choice(DECIMAL_THRESHOLDS + [0.1, 0.2, 0.9, 1.3, 9.2])
+        h = dt / 3600.0
+        if round(j * h, 1) != j * h and abs(round(j * h, 1) - j * h) < 1e-9 and round(j * h, 1) > 0:
+            break
+    s = rng.choice([0.3, 0.7, 1.0, 2.0])
+    n = rng.randint(8, 30)
+    rc, ic = [], []
+    while len(rc) < n:
+        k = rng.randint(1, 3)
+        if rng.random() < 0.6:
+            rc += ["heavy"] * k
+            ic += ["at"] * k                      # the whole rise sits on the threshold
+        else:
+            k = rng.randint(1, 4)
+            rc += [rng.choice(["dry", "light"])] * k
+            ic += [rng.choice(["fall", "flat", "slow"])] * k
+    rec = build_record(rng, s, j, dt, n, rc[:n], ic[:n], gaps=rng.choice([0, 0, 1]))
+    return rec, s, j
+
+
 def build_record(rng, s, j, dt, n, rc, ic, t0=None, gaps=None, pre=None, post=None):
     jd = j * (dt / 3600.0)
     if t0 is None:
@@ -254,8 +287,14 @@ def build_record(rng, s, j, dt, n, rc, ic, t0=None, gaps=None, pre=None, post=No
     rain += [rain_value(rng, c, s) for c in rc]
     rain += [rain_value(rng, rng.choice(["dry", "light", "heavy"]), s) for _ in range(post)]
     level = [float(rng.randint(-1200, 400)) / 4.0]
+    decimal = j in DECIMAL_THRESHOLDS or j in (0.1, 0.2, 0.9, 1.3, 9.2)
+    if decimal:
+        # a logger that records to 0.1 mm: every level is a one-decimal number as typed, and an increment "at" the
+        # threshold is the decimal number j x step rounded to that resolution
+        level = [round(level[0], 1)]
     for i in range(n - 1):
-        level.append(level[-1] + incr_value(rng, ic[i], jd))
+        inc = incr_value(rng, ic[i], jd)
+        level.append(round(level[-1] + round(inc, 1), 1) if decimal else level[-1] + inc)
     removed = set()
     if gaps is None:
         gaps = rng.choice([0, 0, 0, 1, 1, 2, 3, 4])
